@@ -274,14 +274,30 @@ def eval_scenario(cfg, src, symbolic: bool) -> List[str]:
         labels = [f'p{j}' for j in range(n)]
         span = list(labels)
         txt = list(labels)
-    c = VectorContainer(span)
+    stage = cfg.get('stage')
+    c = VectorContainer(span[:n - 1] if stage == 'grown' else span)
     dtype = object if symbolic else float
     cells = {}
     for v in ('X', 'W'):
         c.add_variable(v, 0.0, dtype=dtype)
         cells[v] = [src.f(f'{v}_{j}') for j in range(n)]
-        for j in range(n):
-            c.__dict__['_' + v][j] = cells[v][j]
+    if stage:
+        # HISTORY: expressions evaluated before (on other data / a shorter span), then the object reindexed or copied
+        # and every series replaced by whole-series assignment: anything eval remembered is stale
+        with warnings.catch_warnings():
+            warnings.simplefilter('ignore')
+            for text in ('X', 'X + W', 'X[0] + W[-1]', 'lag(X)', 'X[:]'):
+                _run(lambda: c.eval(text))
+        if stage == 'grown':
+            c = c.reindex(span)
+        elif stage == 'copy':
+            c = c.copy()
+        for v in cells:
+            setattr(c, v, list(cells[v]))
+    else:
+        for v in cells:
+            for j in range(n):
+                c.__dict__['_' + v][j] = cells[v][j]
     before_builtins = dict(ffunc.builtins)
     bad: List[str] = []
     twin = cfg.get('twin')
@@ -414,6 +430,12 @@ def configs(tier: str):
             if span == 'list_sym_neg' and n > 3 and tier == 'quick':
                 continue
             out.append(cfg16(part='eval', span=span, n=n))
+    for stage in ('rebind', 'copy', 'grown'):
+        for span in ('list_sym', 'range', 'list_str', 'nd_int', 'range_neg'):
+            for n in (1, 2, 3) if tier == 'quick' else (1, 2, 3, 4, 5):
+                if stage == 'grown' and span == 'list_sym' and n > 3:
+                    continue
+                out.append(cfg16(part='eval', span=span, n=n, stage=stage))
     return out
 
 
@@ -424,7 +446,7 @@ def finding_key(cfg, cand) -> str:
     bad = cand['replay']['bad']
     if cfg['part'] == 'eval' and any('X[1:3]' in b or 'X[0:2]' in b or 'X[:2]' in b or 'X[-2:]' in b for b in bad):
         return 'positional-slice-rewritten-next-to-backtick'
-    return f"{cfg['part']},{cfg['fn'] if cfg['part'] == 'helper' else cfg['span']},n={cfg['n']}:{bad[0][:80] if bad else '?'}"
+    return f"{cfg['part']},{cfg['fn'] if cfg['part'] == 'helper' else cfg['span']},n={cfg['n']}{',history=' + cfg['stage'] if cfg.get('stage') else ''}:{bad[0][:80] if bad else '?'}"
 
 
 def main() -> int:
